@@ -199,12 +199,12 @@ macro_rules! cam_rt {
     };
 }
 
-//@ harness name=cam128_rt_ed prop=C01 tier=quick bits=256 stub=1 est=30 desc="W: Camellia128::new(key): decrypt_block(encrypt_block(b)) == b for all 2^128 keys and all blocks; real key schedule, round loops and FL/FLINV, F uninterpreted (any function works for a Feistel network)"
+//@ harness name=cam128_rt_ed prop=C01 tier=quick bits=256 stub=1 est=40 desc="W: Camellia128::new(key): decrypt_block(encrypt_block(b)) == b for all 2^128 keys and all blocks; real key schedule, round loops and FL/FLINV, F uninterpreted (any function works for a Feistel network)"
 //@ harness name=cam128_rt_de prop=C01 tier=quick bits=256 stub=1 est=40 desc="W: Camellia128::new(key): encrypt_block(decrypt_block(b)) == b for all keys and blocks; F uninterpreted"
 cam_rt!(cam128_rt_ed, cam128_rt_de, Camellia128, 16);
-//@ harness name=cam192_rt_ed prop=C01 tier=quick bits=320 stub=1 est=50 desc="W: Camellia192::new(key): decrypt_block(encrypt_block(b)) == b for all 2^192 keys and all blocks; F uninterpreted"
-//@ harness name=cam192_rt_de prop=C01 tier=quick bits=320 stub=1 est=50 desc="W: Camellia192::new(key): encrypt_block(decrypt_block(b)) == b for all keys and blocks; F uninterpreted"
+//@ harness name=cam192_rt_ed prop=C01 tier=quick bits=320 stub=1 est=70 desc="W: Camellia192::new(key): decrypt_block(encrypt_block(b)) == b for all 2^192 keys and all blocks; F uninterpreted"
+//@ harness name=cam192_rt_de prop=C01 tier=quick bits=320 stub=1 est=60 desc="W: Camellia192::new(key): encrypt_block(decrypt_block(b)) == b for all keys and blocks; F uninterpreted"
 cam_rt!(cam192_rt_ed, cam192_rt_de, Camellia192, 24);
-//@ harness name=cam256_rt_ed prop=C01 tier=quick bits=384 stub=1 est=45 desc="W: Camellia256::new(key): decrypt_block(encrypt_block(b)) == b for all 2^256 keys and all blocks; F uninterpreted"
-//@ harness name=cam256_rt_de prop=C01 tier=quick bits=384 stub=1 est=40 desc="W: Camellia256::new(key): encrypt_block(decrypt_block(b)) == b for all keys and blocks; F uninterpreted"
+//@ harness name=cam256_rt_ed prop=C01 tier=quick bits=384 stub=1 est=65 desc="W: Camellia256::new(key): decrypt_block(encrypt_block(b)) == b for all 2^256 keys and all blocks; F uninterpreted"
+//@ harness name=cam256_rt_de prop=C01 tier=quick bits=384 stub=1 est=55 desc="W: Camellia256::new(key): encrypt_block(decrypt_block(b)) == b for all keys and blocks; F uninterpreted"
 cam_rt!(cam256_rt_ed, cam256_rt_de, Camellia256, 32);
